@@ -17,6 +17,7 @@ fn main() {
         "keys" => harness::d_keys::keys(&args),
         "c11" => harness::d_field::c11(&args),
         "c12" => harness::d_field::c12(&args),
+        "u32field" => harness::d_field::u32field(&args),
         "c14" => harness::d_hash::c14(&args),
         "c08" => harness::d_system::c08(&args),
         "c15" => harness::d_system::c15(&args),
